@@ -18,7 +18,16 @@
    required to vanish (relative 1e-9) unless the working volume of the step is
    below MINIMUM_VOLUME, where it may only be a loss (r_t >= 0); plus the
    cumulative budget per run, non-negativity of downstream loads and stored
-   masses, and remobilisation <= fine-sediment channel store.
+   masses, and remobilisation <= fine-sediment channel store;
+ * output arrays that are NOT freshly zeroed: every case is run again (a) into an
+   output array pre-filled with a sentinel (a finite one and NaN) and (b) as the
+   SECOND run into the output array of another case of the same model and length
+   with contrasting data (wet after dry and dry after wet).  Every element that the
+   write footprint of the model (Kernels/C12Written.v, evaluated by the extracted
+   model) marks as written in every execution must be bit-identical to the run into
+   fresh arrays, and so must the final states; on a difference the budget oracle is
+   evaluated on the stale outputs.  Elements the footprint marks 0 are the contract
+   "outputs arrive zeroed" (listed in the evidence assumptions).
 """
 import sys, os, math
 sys.path.insert(0, os.path.dirname(os.path.abspath(__file__)))
@@ -432,6 +441,88 @@ def oracle_case(c, orc, idx, case, ri, traj):
     return key is not None and any(k['key'] == key for k in c.known)
 
 
+
+# ----------------------------------------------------------------------------- re-used / unzeroed output arrays
+SENTINELS = [7.0e9, float('nan')]
+
+
+def spec_of(case):
+    """the K-line of a case without the leading 'K' (model P.. S.. I..)"""
+    return case.line()[2:]
+
+
+def stale_lines(cases, impl_parsed):
+    """-> (lines, index) : KS runs (sentinel pre-filled outputs) of every case and K2 runs (second run into the
+    output array of a partner case of the same model and length).  Partners are chosen for contrast: within a
+    (model, length) group the cases are ordered by the number of steps whose downstream load is zero in the fresh run
+    and the driest is paired with the wettest, so both orders wet->dry and dry->wet occur."""
+    lines, index = [], []
+    groups = {}
+    for i, cs in enumerate(cases):
+        if cs.n == 0 or impl_parsed[i][0] != 'OK':
+            continue
+        for sv in SENTINELS:
+            lines.append('KS %s %s' % (f2h(sv), spec_of(cs))); index.append(('sentinel', i, sv))
+        groups.setdefault((cs.model, cs.n), []).append(i)
+    for (m, n), idx in sorted(groups.items()):
+        if len(idx) < 2:
+            continue
+        k = DOWNSTREAM[m][0]
+        idx.sort(key=lambda i: (sum(1 for x in impl_parsed[i][1][k] if x == 0.0), i))
+        L = len(idx)
+        for j, b in enumerate(idx):
+            a = idx[L - 1 - j]
+            if a == b:
+                a = idx[(j + 1) % L]
+            lines.append('K2 %s %s' % (spec_of(cases[a]), spec_of(cases[b]))); index.append(('second-run', b, a))
+    return lines, index
+
+
+def check_stale(c, cases, impl_parsed, masks, trajs, lines, index, results, stats):
+    """every footprint-1 element and every state of a run into a dirty output array must equal the fresh run"""
+    for (kind, b, other), ln, res in zip(index, lines, results):
+        cs, fresh, mask = cases[b], impl_parsed[b], masks[b]
+        r = parse_kresult(res)
+        stats['runs'] += 1
+        name = 'stale_%s_%s_%d_%s.json' % (kind, cs.model, b, other if kind == 'second-run' else ('nan' if other != other else 'finite'))
+        base = cs.brief()
+        base['case_line'] = cs.line()
+        base['dirty_run_line'] = ln
+        if kind == 'second-run':
+            base['previous_run'] = cases[other].brief()
+        else:
+            base['prefill'] = repr(other)
+        if r[0] != 'OK' or mask is None:
+            c.violation(name, dict(base, kind='crash-or-no-footprint-on-reused-output-array', impl=res[:200]))
+            continue
+        bad = []
+        for k, (row, frow, mrow) in enumerate(zip(r[1], fresh[1], mask)):
+            for t, (x, y, mk) in enumerate(zip(row, frow, mrow)):
+                if mk == 1.0:
+                    stats['written_elements'] += 1
+                    if kind == 'second-run' and y == 0.0 and impl_parsed[other][1][k][t] != 0.0:
+                        stats['contrast_elements'] += 1      # old value non-zero, new value zero: a skipped write shows here
+                    if not feq(x, y):
+                        bad.append((k, t, x, y))
+                else:
+                    stats['zeroed_contract_elements'] += 1
+        sbad = [(j, x, y) for j, (x, y) in enumerate(zip(r[2], fresh[2])) if not feq(x, y)]
+        if not bad and not sbad:
+            continue
+        # evaluate the mass balance on what the caller would read: stale values where they survived
+        fails = None
+        if not cs.meta.get('decay'):
+            dirty = [[x if mk == 1.0 else y for x, y, mk in zip(row, frow, mrow)] for row, frow, mrow in zip(r[1], fresh[1], mask)]
+            ctx = _ReplayCtx()
+            traj = [trajs.get(b, {}).get(t) for t in range(1, cs.n + 1)]
+            oracle_case(ctx, Oracle(ctx), b, cs, ('OK', dirty, r[2]), traj)
+            fails = [dict(kind=v.get('kind'), step=v.get('step'), value=v.get('value')) for v in ctx.violations]
+        c.violation(name, dict(base, kind='output-keeps-old-content-of-reused-output-array',
+                               differing_elements=[dict(output=k, step=t, dirty=x, fresh=y) for k, t, x, y in bad[:12]],
+                               differing_states=sbad, budget_oracle_on_stale_outputs=fails,
+                               dirty_outputs=r[1], fresh_outputs=fresh[1], footprint=mask))
+
+
 # ----------------------------------------------------------------------------- main
 EXACT = {'LumpedConstituentRouting', 'InstreamCoarseSediment', 'InstreamParticulateNutrient', 'StorageTrapAll',
          'StorageDissolvedDecay'}
@@ -539,10 +630,28 @@ def replay(path):
     good = oracle_case(c, Oracle(c), 0, cs, ri, traj)
     for kid, text in sorted(c.known_hits.items()):
         print('KNOWN-FINDING: property=C12 %s: %s' % (kid, text))
-    for obj in c.violations:
-        print('oracle failure:', obj.get('kind'), 'step', obj.get('step'), 'value', obj.get('value'), obj.get('impl', ''))
+    for v in c.violations:
+        print('oracle failure:', v.get('kind'), 'step', v.get('step'), 'value', v.get('value'), v.get('impl', ''))
     print('oracle:', 'holds' if (good and not c.known_hits) else ('known finding' if good else 'VIOLATED'))
-    sys.exit(0 if (good and not diff) else 1)
+    stale_bad = False
+    if obj.get('dirty_run_line'):
+        # the recorded case was a run into an output array holding old data: repeat it and compare with the fresh run
+        rd = parse_kresult(run_lines(impl_bin, [obj['dirty_run_line']], env=GOENV)[0])
+        mk = parse_kresult(run_lines(model_bin, [kcase(cs.model + '#written', cs.params, cs.states, cs.inputs)], crash_token='MODELCRASH')[0])
+        print('dirty:', obj['dirty_run_line'][:60], '... ->', rd[0])
+        if rd[0] != 'OK' or mk[0] != 'OK' or ri[0] != 'OK':
+            stale_bad = True
+        else:
+            for k, (row, frow, mrow) in enumerate(zip(rd[1], ri[1], mk[1])):
+                for t, (x, y, m1) in enumerate(zip(row, frow, mrow)):
+                    if m1 == 1.0 and not feq(x, y):
+                        stale_bad = True
+                        print('output %d step %d: %r in the re-used output array, %r in a fresh one' % (k, t, x, y))
+            if not all(feq(x, y) for x, y in zip(rd[2], ri[2])):
+                stale_bad = True
+                print('final states differ:', rd[2], ri[2])
+        print('re-used output array:', 'STALE CONTENT SURVIVES (VIOLATED)' if stale_bad else 'identical to the fresh run on every always-written element')
+    sys.exit(0 if (good and not diff and not stale_bad) else 1)
 
 
 def main():
@@ -635,13 +744,29 @@ def main():
                       'impl_outputs_first_8_steps': [r[:8] for r in ri[1]],
                       'impl_states_after_each_of_first_8_steps': traj[:8],
                       'final_states': ri[2], 'oracle_ok': good}, limit=6)
+    # ---- output arrays holding old data (second run into the same array, sentinel pre-fill)
+    impl_parsed = [parse_kresult(l) for l in impl]
+    mlines = [kcase(cs.model + '#written', cs.params, cs.states, cs.inputs) for cs in cases]
+    mres = [parse_kresult(l) for l in run_lines(model_bin, mlines, crash_token='MODELCRASH')]
+    masks = [r[1] if r[0] == 'OK' else None for r in mres]
+    slines, sindex = stale_lines(cases, impl_parsed)
+    sres = run_lines(impl_bin, slines, env=GOENV)
+    stale_stats = {'runs': 0, 'written_elements': 0, 'contrast_elements': 0, 'zeroed_contract_elements': 0,
+                   'second_run_pairs': sum(1 for x in sindex if x[0] == 'second-run'),
+                   'sentinel_runs': sum(1 for x in sindex if x[0] == 'sentinel')}
+    check_stale(c, cases, impl_parsed, masks, trajs, slines, sindex, sres, stale_stats)
+    c.cov['evaluations'] += stale_stats['runs']
     c.cov['rule'] = ('per model: non-negative load series (zero/constant/random/pulse/sparse/large) x hydrology regimes '
                      '(steady, dry, near-empty around MINIMUM_VOLUME, exactly-at-threshold, intermittent, pulse, storm, zero-flow pond, '
                      'zero-storage river) x time steps in [1,86400] x random initial stored masses x parameters over their documented / '
                      'physical ranges incl. both sides of every branch (bank-full 0 / >0 / outflow below, at, above bank-full; deposition, '
                      'remobilisation, neither; half-life on/off; deposition signal >=0 / <0; trapping 0, partial, 100 %; decay disabled); '
                      'each case is run through sim.Catalog and through the extracted Coq kernel (bit-exact, or rtol 1e-9 where pow/exp occur) '
-                     'and the implementation is re-run on every prefix to observe the state after each step; '
+                     'and the implementation is re-run on every prefix to observe the state after each step; every case is also '
+                     'run into an output array pre-filled with a sentinel (finite, NaN) and as the second run into the output array of a '
+                     'contrasting case of the same model and length (wet after dry, dry after wet), and compared bit-for-bit with the '
+                     'fresh run on every element the model footprint marks as always written (these re-runs are counted in evaluations, '
+                     'not in distinct_nontrivial); '
                      'non-trivial = at least one positive load in the first two input series')
     chk = None
     if not quick:
@@ -654,7 +779,7 @@ def main():
             if not c.proof_broken:
                 c.proof_broken = ('coqchk OW.Properties.C12', e.output[-3000:])
     not_reproduced = sorted(k['id'] for k in c.known if k['id'] not in c.known_hits)
-    c.finish(extra_cov={'driver_pow_snan_artefact_stream_skipped': driver_pow_snan_artefact, 'coqchk': chk, 'known_findings_not_reproduced_this_run': not_reproduced, 'per_model': per_model, 'branch_hits': dict(sorted(orc.branches.items())),
+    c.finish(extra_cov={'reused_output_arrays': stale_stats, 'driver_pow_snan_artefact_stream_skipped': driver_pow_snan_artefact, 'coqchk': chk, 'known_findings_not_reproduced_this_run': not_reproduced, 'per_model': per_model, 'branch_hits': dict(sorted(orc.branches.items())),
                         'prefix_runs': len(plines), 'exhaustive': False,
                         'oracle': 'per-step and cumulative mass budget (rtol 1e-9), loss only when working volume < 0.01, '
                                   'non-negative downstream loads and stores, remobilisation <= channel store'},
@@ -662,7 +787,16 @@ def main():
                           'OCaml libm pow/exp stands in for Go math.Pow/math.Exp (tolerance 1e-9) in ConstituentDecay, InstreamFineSediment, '
                           'StorageParticulateTrapping, InstreamDissolvedNutrientDecay',
                           'StorageTrapAll has no time-step parameter: its budget is evaluated with the catalogue default step of 86400 s',
-                          'sim.Catalog generated wrappers are exercised, not modelled (see C04)'])
+                          'sim.Catalog generated wrappers are exercised, not modelled (see C04)',
+                          'contract "outputs arrive zeroed" (sim.InitialiseOutputs): the following output elements are NOT written by the '
+                          'Go functions in every execution and are only correct in a zero-initialised output array (footprint 0 in '
+                          'Kernels/C12Written.v; proved to be 0.0 in the model): ConstituentDecay.decayedLoad when halfLife <= 0; '
+                          'InstreamFineSediment loadToFloodplain, loadToChannelDeposition, floodplainDepositionFraction, channelDepositionFraction '
+                          'when bankFullFlow <= 1e-8; InstreamParticulateNutrient.loadDeposited on a step flushed below the minimum volume; '
+                          'StorageTrapAll.outflowMass; StorageDissolvedDecay.decayedMass with decay disabled; '
+                          'InstreamDissolvedNutrientDecay decayedLoad and loadToFloodplain (and, with decay enabled, decayedLoad / '
+                          'loadFromPointSource except on the slow-travel branch). Every other output element of the nine models is required to be '
+                          'independent of the previous content of the output array (tested by the reused-output-array stream)'])
 
 
 if __name__ == '__main__':
